@@ -87,8 +87,9 @@ type Runtime struct {
 	Fired   bool
 	FiredK  probeKind
 	FiredI  Invocation
-	Variant int       // data builder variant (C13/C14): equal variants build deep-equal data
-	Ctx     *ctxProbe // C10 inside renders: contexts kept by helpers (nil: helpers ck/pbd are inert)
+	Variant int                    // data builder variant (C13/C14): equal variants build deep-equal data
+	Reuse   map[string]interface{} // non-nil: the caller re-uses its nested data objects (maps, slices) from render to render; first build fills it
+	Ctx     *ctxProbe              // C10 inside renders: contexts kept by helpers (nil: helpers ck/pbd are inert)
 }
 
 type wrongKind struct{ why string }
@@ -278,6 +279,28 @@ func (rt *Runtime) plainData() map[string]interface{} {
 		"dp":   &Dual{Label: "ptr" + fmt.Sprint(v), Bal: 40 + v},
 		"stg":  stg{"s" + fmt.Sprint(v)},
 		"htm":  htm{"h&" + fmt.Sprint(v)},
+	}
+	if rt.Prog != nil {
+		for name, m := range rt.Prog.CtxMaps {
+			c := map[string]interface{}{}
+			for k, x := range m {
+				c[k] = x
+			}
+			d[name] = c
+		}
+	}
+	if rt.Reuse != nil {
+		// a caller that builds its maps and slices once and passes the same objects to every render
+		for k, x := range d {
+			switch x.(type) {
+			case map[string]interface{}, map[string]int, []int, []string:
+				if old, ok := rt.Reuse[k]; ok {
+					d[k] = old
+				} else {
+					rt.Reuse[k] = x
+				}
+			}
+		}
 	}
 	if rt.Prog != nil && rt.Prog.JS {
 		d["contentType"] = "application/javascript"
